@@ -224,6 +224,33 @@ pub fn run_impl_isolated(engine: &dyn Engine, cases: &[Vec<String>]) -> Vec<Vec<
 
 /// Run the Lean driver over a batch of cases (one process).
 pub fn run_model(driver: &str, cases: &[Vec<String>]) -> Vec<Vec<String>> {
+    // a model that does not answer a line within the time limit is killed; the case gets
+    // `model-timeout` lines (not compared, counted in the tags) and a fresh driver takes over
+    // with the next case (every case starts from its own constructor line)
+    let mut res: Vec<Vec<String>> = Vec::with_capacity(cases.len());
+    let mut start = 0;
+    let mut restarts = 0;
+    while start < cases.len() {
+        let (done, timed_out) = run_model_from(driver, &cases[start..]);
+        let n = done.len();
+        res.extend(done);
+        start += n;
+        if timed_out {
+            restarts += 1;
+            if restarts > 20 {
+                break;
+            }
+        }
+    }
+    while res.len() < cases.len() {
+        res.push(cases[res.len()].iter().map(|_| "model-timeout".to_string()).collect());
+    }
+    res
+}
+
+/// runs the cases on one driver process; returns the outputs of the cases it got through (the last
+/// of them padded with `model-timeout` when the driver had to be killed) and whether it was killed
+fn run_model_from(driver: &str, cases: &[Vec<String>]) -> (Vec<Vec<String>>, bool) {
     let mut child = Command::new(driver)
         .stdin(Stdio::piped())
         .stdout(Stdio::piped())
@@ -240,7 +267,6 @@ pub fn run_model(driver: &str, cases: &[Vec<String>]) -> Vec<Vec<String>> {
         let _ = stdin.write_all(payload.as_bytes());
     });
     let stdout = child.stdout.take().unwrap();
-    // reader thread + watchdog: a model that does not answer within the time limit is killed
     let (tx, rx) = channel::<String>();
     std::thread::spawn(move || {
         for l in BufReader::new(stdout).lines() {
@@ -254,22 +280,22 @@ pub fn run_model(driver: &str, cases: &[Vec<String>]) -> Vec<Vec<String>> {
             }
         }
     });
-    let per_line = Duration::from_secs(120);
-    let mut dead = false;
+    let per_line = Duration::from_secs(40);
     let mut res = Vec::with_capacity(cases.len());
-    for c in cases {
+    let mut killed = false;
+    'cases: for c in cases {
         let mut out = Vec::with_capacity(c.len());
         for _ in 0..c.len() {
-            if dead {
-                out.push("model-timeout".into());
-                continue;
-            }
             match rx.recv_timeout(per_line) {
                 Ok(l) => out.push(l),
                 Err(_) => {
-                    dead = true;
+                    killed = true;
                     let _ = child.kill();
-                    out.push("model-timeout".into());
+                    while out.len() < c.len() {
+                        out.push("model-timeout".into());
+                    }
+                    res.push(out);
+                    break 'cases;
                 }
             }
         }
@@ -278,7 +304,7 @@ pub fn run_model(driver: &str, cases: &[Vec<String>]) -> Vec<Vec<String>> {
     let _ = child.kill();
     let _ = writer.join();
     let _ = child.wait();
-    res
+    (res, killed)
 }
 
 // ------------------------------------------------------------------------------------------
@@ -314,7 +340,7 @@ fn first_diff(
             }
             return Some(i);
         }
-        if is_model && !engine.model_compared(&ops[i]) {
+        if is_model && (!engine.model_compared(&ops[i]) || y == "model-timeout") {
             continue;
         }
         if is_model {
@@ -534,7 +560,10 @@ pub fn run_engine(engine: &dyn Engine, cfg: &RunConfig) -> RunSummary {
         }
         // model
         if let Some(mo) = &model_out {
-            model_lines += ops.iter().filter(|o| engine.model_compared(o)).count();
+            if mo[i].iter().any(|l| l == "model-timeout") {
+                *tags.entry("model-timeout".to_string()).or_insert(0) += 1;
+            }
+            model_lines += ops.iter().zip(mo[i].iter()).filter(|(o, m)| engine.model_compared(o) && m.as_str() != "model-timeout").count();
             if let Some(k) = first_diff(engine, ops, &impl_out[i], &mo[i], true) {
                 if model_failures.len() < 3 {
                     let drv = cfg.driver.clone().unwrap();
